@@ -147,6 +147,7 @@ class Ctx:
         self.on_shared_access = None  # C14 scheduler hook
         self.undo = None  # C15 undo log
         self.deadline = 0
+        self.maybe_ok = True  # undecided branch feasibility = explore the branch (see _check)
 
     # ---- lifecycle
     def start(self):
@@ -194,7 +195,16 @@ class Ctx:
         r = self._timed(self.solver, *assumptions)
         if r == z3.unknown:
             self.stats.bump("fork_retries")
-            return self.final(*assumptions)
+            try:
+                return self.final(*assumptions)
+            except Inconclusive:
+                if not self.maybe_ok:
+                    raise
+                # feasibility could not be decided: the branch is explored as if feasible.  This only adds paths (an
+                # over-approximation): obligations at path ends are still decided by final queries, and a reported
+                # counterexample needs a model and a successful replay, so neither soundness direction is affected.
+                self.stats.bump("maybe_feasible")
+                return True
         return r == z3.sat
 
     def _abstract_unsat(self, asserts, assumptions, timeout_ms):
